@@ -12,7 +12,6 @@ import (
 	"errors"
 	"fmt"
 	"io"
-	"io/ioutil"
 	"net"
 	"net/http"
 	"net/http/httptest"
@@ -715,6 +714,27 @@ func size03(loc string) int {
 
 // ---- running a case ----
 
+// c03ReadAll is ioutil.ReadAll with a fixed buffer size (a clean EOF is reported as nil), except that a reader
+// which keeps answering (0, nil) ends in an error instead of hanging the harness.
+func c03ReadAll(r io.Reader, bufsize int) (got []byte, e error) {
+	buf := make([]byte, bufsize)
+	idle := 0
+	for e == nil {
+		var m int
+		m, e = r.Read(buf)
+		got = append(got, buf[:m]...)
+		if idle++; m > 0 {
+			idle = 0
+		} else if idle > 1000 && e == nil {
+			e = errors.New("verif: Read makes no progress")
+		}
+	}
+	if e == io.EOF {
+		e = nil
+	}
+	return
+}
+
 type c03Result struct {
 	term string
 	desc string
@@ -834,7 +854,7 @@ func c03Run(t *testing.T, c *c03Case) (results []c03Result, log [][3]int, synced
 			switch o.mode {
 			case 0:
 				var e error
-				got, e = ioutil.ReadAll(rdr)
+				got, e = c03ReadAll(rdr, 512)
 				rerr = c03Err(e)
 				if e == nil {
 					rerr = "EEOF" // ReadAll reports a clean EOF as nil
@@ -938,18 +958,10 @@ func c03Run(t *testing.T, c *c03Case) (results []c03Result, log [][3]int, synced
 			var got []byte
 			var e error
 			if o.k == 0 {
-				got, e = ioutil.ReadAll(f)
+				got, e = c03ReadAll(f, 512)
 			} else {
 				// read with a small buffer, so that reads end inside segments as well as at their ends
-				buf := make([]byte, o.k)
-				for e == nil {
-					var m int
-					m, e = f.Read(buf)
-					got = append(got, buf[:m]...)
-				}
-				if e == io.EOF {
-					e = nil
-				}
+				got, e = c03ReadAll(f, o.k)
 			}
 			f.Close()
 			results = append(results, c03Result{fmt.Sprintf("RFile %s %s", c.str(got), c03Err(e)), fmt.Sprintf("file: %d bytes %s (%s)", len(got), c03Err(e), strings.TrimSpace(mt))})
